@@ -210,7 +210,7 @@ func ioFaults(r *Run) {
 			}
 			// which error value the failing call hands back (a plain errno,
 			// another errno, the io package's sentinel errors, wrapped or not)
-			style := t.Pick([]int{5, 1, 1, 1}, "error-style")
+			style := t.Pick([]int{5, 1, 1, 1, 1}, "error-style")
 			key, occ := addrOf(i)
 			plans = append(plans, inj{[]simdisk.Fault{{Path: key, Op: a.Op, Occ: occ, Kind: k, Keep: keep, ErrStyle: style}}, fmt.Sprintf("call %d (%c %s) kind=%s keep=%d errstyle=%d", i, a.Op, a.Path, k, keep, style)})
 		}
